@@ -3,9 +3,21 @@ import Ibx.Model.ConcMem
 import Ibx.Model.ConcFile
 /-
   T1 tie for C09: the variants of the concurrent models that the theorems of Ibx/Props/C09.lean are about are the
-  ones the source has NOW.  The facts are regenerated from pkg/storage/mem/{store,maxsize,message}.go,
-  pkg/storage/file/fstore.go and pkg/storage/lock.go on every run (harness/cmd/extract/conc.go); a fact whose
-  code shape is not recognised is "unknown"/false and none of these obligations accepts it.
+  ones the source has NOW.  The facts are regenerated from pkg/storage/mem/*.go, pkg/storage/file/*.go and
+  pkg/storage/lock.go on every run (harness/cmd/extract/conc.go).
+
+  The facts are STRUCTURAL: things are identified by exported / library names (PushBack, Front, Remove, Lock, RLock,
+  Unlock, RUnlock, AfterMessageDeleted.Emit, MailboxMsgCap, atomic.Bool, os.IsNotExist, filepath.Join,
+  strconv.ParseInt, AddMessage, ...), operators, literals, identity of variables, the conditions known to hold where
+  a statement runs (from if / else, switch, guard clauses, loop conditions) and order in the view where unexported
+  same-package helpers are inlined — never by the spelling of locals, parameters, receivers, unexported functions /
+  types / fields, comments or messages.  Anchors used instead of unexported names:
+    the size enforcer   = the method started with `go` that selects over two receiver channel fields, one case
+                          calling PushBack (the registering case), the other being the un-registering case;
+    the lock wrapper    = the function that calls its func parameter on a local it has locked (withMailbox);
+    a rendezvous        = a send on one of those two channel fields (wherever a helper hides it).
+  A fact whose code shape is not recognised is "unknown" / false / a different list and none of these obligations
+  accepts it.
 -/
 namespace Ibx.Tie.Conc
 open Ibx.Model
@@ -23,24 +35,38 @@ def fileEnoent : Option ConcFile.EnoentVar :=
   if Gen.Conc.fileVisitENOENT = "tolerated" then some .tolerated
   else if Gen.Conc.fileVisitENOENT = "fatal" then some .fatal else none
 
-/-- the remove case of the enforcer tests `m.el == nil` and sets `m.gone` -/
+/-- the un-registering case of the enforcer reaches `Remove(m.el)` only with `m.el` known non-nil, sets the flag
+    (`m.gone`) where it is nil, and always closes `done` (Step.remGone / remUnlink, not remPanic) -/
 theorem memEnforcerRemove_tie : memRemove = some ConcMem.Variant.code.remove := by decide
-/-- enforcerDeliver / enforcerRemove are called after withMailbox has returned -/
+/-- no rendezvous with the enforcer is reached from inside a closure passed to the lock wrapper; AddMessage,
+    RemoveMessage and PurgeMessages reach theirs after the wrapper has returned (todoOf: `.unlock` first) -/
 theorem memEnforcerCallSite_tie : memSite = some ConcMem.Variant.code.site := by decide
-/-- the `incoming` case skips messages already marked gone; the eviction loop stops on an empty list -/
+/-- the registering case skips (close `done`, continue) messages whose flag is set, otherwise PushBack and record the
+    element (Step.incGone / incReg); the eviction loop `total > limit` leaves with break on an empty list
+    (Step.loopEmpty) -/
 theorem memEnforcerShape_tie : Gen.Conc.memIncomingSkipsGone = true ∧ Gen.Conc.memEvictStopsOnEmpty = true := by decide
-/-- cap evictions are collected under the lock and announced to the enforcer afterwards (todoOf) -/
+/-- cap evictions (loop `len > cap`, oldest index first) are collected under the lock and announced — deleted event
+    and un-registration per message — after it, and only then is the new message registered (todoOf:
+    `.unlock :: del.map .rem ++ [.inc]`) -/
 theorem memCapEvict_tie : Gen.Conc.memCapEvict = "collectsAndNotifies" ∧ Gen.Conc.memDeliverIsLast = true := by decide
 /-- the seen flag is an atomic (the model treats it as shared state outside the mailbox lock) -/
 theorem memSeenAtomic_tie : Gen.Conc.memSeenAtomic = true := by decide
-/-- withMailbox releases the store mutex before taking the mailbox lock (step program lockS; unlockS; lockB) -/
+/-- the lock wrapper releases the store mutex before taking the mailbox lock, write or read as its flag says, and
+    calls the critical section under it (step program lockS; unlockS; lockB; crit; unlock) -/
 theorem memWithMailbox_tie : Gen.Conc.memStoreLockReleasedBeforeBoxLock = true := by decide
+/-- which mailbox lock each operation takes, once: only GetMessage / GetMessages read-lock (Op.isWrite); an
+    operation is ONE critical section (no check-then-act over two) -/
+theorem memLockModes_tie : Gen.Conc.memLockModes =
+    ["AddMessage:W", "GetMessage:R", "GetMessages:R", "MarkSeen:W", "PurgeMessages:W", "RemoveMessage:W",
+     "VisitMailboxes:"] := by decide
 /-- VisitMailboxes tolerates ENOENT on the level-1 and level-2 readdirs -/
 theorem fileVisitENOENT_tie : fileEnoent = some .tolerated := by decide
-/-- every other file-store operation holds its bucket lock from start to end; the visitor reads each mailbox
-    under the read lock; the bucket is the level-1 directory -/
+/-- every other file-store operation holds its bucket lock from start to end (mutators the write lock); the visitor
+    reads each mailbox under the read lock and calls back without it; the bucket is the level-1 directory -/
 theorem fileLocks_tie : Gen.Conc.fileOpsHoldBucketLock = true ∧ Gen.Conc.fileVisitReadsLocked = true ∧
     Gen.Conc.fileBucketIsLevel1Dir = true ∧
-    Gen.Conc.fileLockedOps = ["AddMessage", "GetMessage", "GetMessages", "MarkSeen", "PurgeMessages", "RemoveMessage"] := by decide
+    Gen.Conc.fileLockedOps = ["AddMessage", "GetMessage", "GetMessages", "MarkSeen", "PurgeMessages", "RemoveMessage"] ∧
+    Gen.Conc.fileLockModes = ["AddMessage:W", "GetMessage:R", "GetMessages:R", "MarkSeen:W", "PurgeMessages:W",
+      "RemoveMessage:W"] := by decide
 
 end Ibx.Tie.Conc
